@@ -96,7 +96,8 @@ def work(job):
     truth = None
     if kind == "gen":
         t = trees.gen_tree(rnd, nfiles=rnd.choice([1, 2, 4]), stmts=(0, 30), structured=structured,
-                           idclass=rnd.choice(["none", "dense", "gaps", "zero"]), label="g%d" % i)
+                           idclass=rnd.choice(["none", "dense", "gaps", "zero", "high"]), label="g%d" % i,
+                           directives=rnd.random() < 0.3, complete_prob=rnd.choice([0.0, 0.0, 0.5]))
         files, truth = t.files, t.truth
     elif kind == "genmut":
         t = trees.gen_tree(rnd, nfiles=rnd.choice([1, 2, 3]), stmts=(1, 25), structured=structured,
